@@ -335,6 +335,42 @@ func runWireTaint(c *core.Ctx) []core.Obligation {
 		}
 	}
 
+	// ---------------- window / count agreement: a function that hands out a window b[lo:hi] of its
+	// input together with the number of bytes consumed reports exactly hi
+	for _, fn := range c.RepoFunctions() {
+		if fn.Blocks == nil || fn.Synthetic != "" || !strings.HasPrefix(shortName(fn), "proto.") {
+			continue
+		}
+		res := fn.Signature.Results()
+		if res.Len() != 3 || !isSliceType(res.At(0).Type()) || !isErrorType(res.At(2).Type()) {
+			continue
+		}
+		if bt, ok := res.At(1).Type().Underlying().(*types.Basic); !ok || bt.Kind() != types.Int {
+			continue
+		}
+		bp := bufParam(fn)
+		if bp == nil {
+			continue
+		}
+		k := 0
+		for _, r := range returnsOf(fn) {
+			if len(r.Results) != 3 || !isNilConst(r.Results[2]) {
+				continue
+			}
+			sl, ok := r.Results[0].(*ssa.Slice)
+			if !ok || sl.High == nil || !derivesFromValue(sl.X, bp) {
+				continue
+			}
+			k++
+			key := fmt.Sprintf("window-count:%s#%d", shortName(fn), k)
+			if flattenConv(r.Results[1]).equal(flattenConv(sl.High)) {
+				b.addP([]string{"C07", "C12"}, core.Discharged, key, c.InstrPos(r), "the consumed count equals the end of the window handed out")
+			} else {
+				b.addP([]string{"C07", "C12"}, core.Violation, key, c.InstrPos(r), fmt.Sprintf("%s hands out the window b[..:%s] but reports %s bytes consumed: the count must be where the window ends in the input (recomputing it from the value assumes the length prefix was minimally encoded, and a padded varint such as 83 00 desynchronises the decoder)", shortName(fn), describeValue(sl.High), describeValue(r.Results[1])))
+			}
+		}
+	}
+
 	// ---------------- thrift allocations
 	for _, fn := range c.RepoFunctions() {
 		if fn.Blocks == nil || !strings.HasPrefix(shortName(fn), "thrift.") || fn.Synthetic != "" {
